@@ -2,6 +2,8 @@
 from pyvc.runner import Prop, Bounded, script_replay
 import contracts.guesser_core as gc
 import contracts.guesser_lemmas as gl
+import contracts.guesser_loader as gld
+import contracts.guesser_session as gs
 
 M = gc.MOD + ':PcfgGrammar.'
 Q = gc.PQ + ':'
@@ -11,10 +13,22 @@ PROP = Prop(
     functions=[Q + 'QueueItem.__lt__', Q + 'QueueItem.__le__', Q + 'QueueItem.__eq__', Q + 'QueueItem.__ne__',
                Q + 'QueueItem.__gt__', Q + 'QueueItem.__ge__',
                M + '_find_prob', M + '_are_you_my_child', M + 'find_children', M + 'initalize_base_structures',
-               Q + 'PcfgQueue.insert_queue', Q + 'PcfgQueue.next'],
-    lemmas=gl.all_c01_lemmas,
+               Q + 'PcfgQueue.insert_queue', Q + 'PcfgQueue.next',
+               # the loaded ruleset is what the files say: base-structure probabilities (skip_brute renormalisation) and groups of equal probability
+               (gld.GIO + ':_load_base_structures', gs.install), (gld.GIO + ':_load_from_file', gld.install_reader)],
+    lemmas=lambda: gl.all_c01_lemmas() + gld.firstm_stable.lemmas() + gld.groups_desc.lemmas(),
     level='proof',
     replay=script_replay('replay/guesser.py'),
+    bounded=[Bounded('C01.bounded.run', 'replay/guesser.py', args=['--fn', 'RUN'],
+                     bound='60 random rulesets (1-3 base structures incl. duplicates, repeated variable types, tie-rich dyadic probabilities), run to exhaustion',
+                     clause='cross-check of the proved clauses on the real classes: order, attached probability == product, heap step (not needed for the proof; '
+                            'it keeps the property decided when a changed function falls outside the verifiable subset)'),
+             Bounded('C01.bounded.loader_base', 'replay/loader.py', args=['--fn', '_load_base_structures'],
+                     bound='grammar.txt files of 1-6 lines, M line first/middle/last/absent/alone, both skip_brute values',
+                     clause='cross-check of _load_base_structures against its declarative spec'),
+             Bounded('C01.bounded.loader_groups', 'replay/loader.py', args=['--fn', '_load_from_file'],
+                     bound='terminal files of 1-9 rows with equal / 1 ulp / 1e-12 / 4e-10 apart / halved probabilities',
+                     clause='cross-check: groups are the maximal runs of exactly equal probabilities')],
     assumptions=[
         'A-FP: float * is monotone in each argument on non-negative operands, x*y <= x for 0<=y<=1, x*1.0 == x; '
         'nothing else is assumed of it (not associative, not commutative)',
